@@ -127,6 +127,13 @@ ADDED_R11 = {
  "C20": "oracle on the wire: what the I/O thread accepted from a channel before the connection's close point is written, in whole frames, once the client's last frame is.",
 }
 
+ADDED_R13 = {
+ "C04": "the six synchronous exchange operations (declare, passive declare, bind, unbind, bind through a handle, delete) as one program step, replies held and released in every order.",
+ "C06": "a bad frame-end octet on every kind of frame (body, empty body, header, heartbeat, Deliver), not only on a method frame.",
+ "C15": "(tuned) bodies of exactly two and three payload limits.",
+ "C18": "(throttle) close right after the transport takes everything again: 'writable' and the close request in one wake-up, the buffer empty when the close is taken.",
+ "C19": "(urlslice) amqps://localhost?connection_timeout=400 against a peer that accepts and stays silent must end in ConnectionTimeout (real time: 10 s allowed, one retry).",
+}
 ADDED_R12 = {
  "C02": "a high-water mark below one message (default low-water mark), with and without a stalled transport: throttling episodes while the messages go out.",
  "C03": "what the server still had in its pipe when the client's Connection.Close reached it (a delivery, a returned message, ahead of its CloseOk) still reaches its addressee.",
@@ -175,6 +182,8 @@ def main():
                     engine = "seqx+" + engine
             if pid in ADDED_R12:
                 text = text + " Added in round 12: " + ADDED_R12[pid]
+            if pid in ADDED_R13:
+                text = text + " Added in round 13: " + ADDED_R13[pid]
             if pid == "C12":
                 # the clause "on the right channel" is decided on a live connection (simx ids)
                 cat, engine = "model_checking", "seqx+simx"
